@@ -724,6 +724,9 @@ def fold(t, prog):
         if a[0] == "const" and b[0] == "const" and isinstance(a[1], int) and isinstance(b[1], int) \
                 and not isinstance(a[1], bool) and not isinstance(b[1], bool):
             x, y = a[1], b[1]
+            if op in ("Add", "AddWithOverflow") and 0 <= x + y < 2 ** 31 and x >= 0 and y >= 0:
+                # small non-negative constants (an index + 1 after inlining): no integer type of the crate overflows here
+                return ("const", x + y) if op == "Add" else ("tuple", (("const", x + y), ("const", False)))
             res = {"Eq": x == y, "Ne": x != y, "Lt": x < y, "Le": x <= y, "Gt": x > y, "Ge": x >= y}.get(op)
             if res is not None:
                 return ("const", res)
